@@ -92,7 +92,7 @@ func NewCtx(prop, tier string) *Ctx {
 			c.Workers = n
 		}
 	}
-	budget := 100 * time.Second
+	budget := 150 * time.Second
 	if tier == "thorough" {
 		budget = 30 * time.Minute
 	}
